@@ -396,6 +396,48 @@ class PyRegex(object):
         return rcat(b, rset(NL))
 
 
+def ambiguous_repeats(pattern, flags=0):
+    """Unbounded repeats (X)* / (X)+ of a python regex whose body X is ambiguous under iteration: some string is
+    both ONE iteration of X and TWO OR MORE (L(X) & L(X X X*) != {}).  On a backtracking engine such a repeat has
+    exponentially many ways to match a run of that string; when the continuation fails, all of them are tried.
+    Returns [(text of the repeat body as Rx rendering, witness code points)]; regex parts the model cannot
+    express are skipped (sound for reporting: only ambiguities actually found are returned)."""
+    pr = PyRegex.__new__(PyRegex)
+    pr.pattern = pattern
+    pr.flags = flags
+    parsed = sre_parse.parse(pattern, flags)
+    st_flags = parsed.state.flags
+    pr.multiline = bool(st_flags & re.MULTILINE)
+    pr.dotall = bool(st_flags & re.DOTALL)
+    pr.ascii = bool(st_flags & re.ASCII)
+    out = []
+
+    def visit(items):
+        for op, av in items:
+            if op in (sre_c.MAX_REPEAT, sre_c.MIN_REPEAT):
+                lo, hi, sub = av
+                visit(sub)
+                if hi == sre_c.MAXREPEAT and not (len(sub) == 1 and sub[0][0] in (sre_c.LITERAL, sre_c.NOT_LITERAL, sre_c.IN,
+                                                                                  sre_c.ANY)):
+                    try:
+                        x = pr._seq(sub, ())
+                        hits = [w for w in find_common_many(build(x), build(rcat(x, x, rstar(x))), n=3) if len(w) > 0]
+                        hit = hits[0] if hits else None
+                    except Unsupported:
+                        hit = None
+                    if hit:
+                        out.append((x, hit))
+            elif op == sre_c.SUBPATTERN:
+                visit(av[3])
+            elif op == sre_c.BRANCH:
+                for alt in av[1]:
+                    visit(alt)
+            elif op in (sre_c.ASSERT, sre_c.ASSERT_NOT):
+                visit(av[1])
+    visit(list(parsed))
+    return out
+
+
 def open_sym(gid):
     return SYM_BASE + 0x100 + 2 * gid
 
